@@ -1,5 +1,6 @@
 import TLVerif.Codec.BytesVariant
 import TLVerif.Codec.BytesVariantCanon
+import TLVerif.Codec.KeyOrder
 import TLVerif.Codec.TL1Example
 /-!
 # C10 — `[]byte` variants behave like string variants (TL1)
@@ -351,6 +352,15 @@ theorem string_variant_canonical_on_canonical_input (cfg : Cfg) (d : Desc) (S : 
     ∃ pre, bs = pre ++ rest ∧ writeTL1 d fuel ty bare params v = .ok pre := by
   obtain ⟨h1, h2⟩ := bytes_variant_agrees_on_canonical (fun _ => true) (fun _ => true) cfg d fuel ty bare params bs v rest h
   exact ⟨h1, bytes_variant_canonical cfg d S hcl hnb fuel ty bare params bs v rest hS h2⟩
+
+/-- the order in which the string variant writes keys is asymmetric for every key kind (signed and unsigned integers,
+byte strings, booleans) … -/
+theorem key_order_asymm (k : PrimK) (a b : Val) (h : keyLt k a b = true) : keyLt k b a = false := keyLt_asymm k a b h
+
+/-- … so the strict reader's guard — the "canonical input" hypothesis of the theorems above — is nothing more than
+"every key strictly below every later key" -/
+theorem canonical_guard_is_strict_ascent (k : PrimK) (vs : List Val) : dictAscending k vs = dictPairwiseLt k vs :=
+  dictAscending_eq_pairwiseLt k vs
 
 /-! ## non-vacuity and necessity of the hypothesis -/
 
